@@ -6,6 +6,9 @@ import io
 import math
 import warnings
 
+import os
+import sys
+
 import numpy as np
 
 import vlib
@@ -376,6 +379,42 @@ def check_segments(res, tier):
                             ok = False
             if ok:
                 res.traces += 1
+        # --- limits requested as unnormalised psi values, including a value of exactly 0.0 (psi shifted by a constant so that the wanted
+        #     surface is psi = 0): the segment must start / end exactly at the requested value
+        ex = os.path.join(vlib.REPO, "examples", "tokamak")
+        if ex not in sys.path:
+            sys.path.insert(0, ex)
+        import tokamak_example
+
+        wall = [(1.25, -0.45), (1.25, 0.45), (1.75, 0.45), (1.75, -0.45)]
+        lim_cases = [("lsn", "psi_sol", "sol", "psi_end", 1.15), ("lsn", "psi_core", "core", "psi_start", 0.85), ("lsn", "psi_pf_lower", "lower_pf", "psi_start", 0.92),
+                     ("cdn", "psi_sol_inner", "inner_sol", "psi_end", 1.07), ("cdn", "psi_pf_upper", "upper_pf", "psi_start", 0.93)]
+        for geo, opt, seg, end, pn in lim_cases:
+            r1, z1, p2, p1 = tokamak_example.create_tokamak(geometry=geo)
+            base = dict(nx_core=3, nx_sol=4, nx_pf=3, ny_inner_divertor=3, ny_outer_divertor=4, ny_sol=8, finecontour_Nfine=40)
+            try:
+                with warnings.catch_warnings(), contextlib.redirect_stdout(io.StringIO()):
+                    warnings.simplefilter("ignore")
+                    e0 = tokamak.TokamakEquilibrium(r1, z1, p2.copy(), p1.copy(), [], settings=dict(base), wall=wall)
+                target = float(e0.psi_axis + pn * (e0.psi_sep[0] - e0.psi_axis))
+                for shift, label in ((0.0, "as given"), (target, "psi shifted so that the limit is exactly 0.0")):
+                    want = target - shift
+                    del cap[:]
+                    with warnings.catch_warnings(), contextlib.redirect_stdout(io.StringIO()):
+                        warnings.simplefilter("ignore")
+                        tokamak.TokamakEquilibrium(r1, z1, p2 - shift, p1 - shift, [], settings=dict(base, **{opt: want}), wall=wall)
+                    res.case(key=("limit", geo, opt, label), nontrivial=True, sample={"op": "explicit psi limit", "geometry": geo, "option": opt, "value": want})
+                    got = [sg[seg][end] for sg in cap if seg in sg]
+                    if not got:
+                        res.broken("segment %s not found among the segments handed to segmentsWithPsivals" % seg, {"geometry": geo})
+                    elif any(g != want for g in got):
+                        res.violation("segments:limit-ignored", "%s with %s=%r (%s): segment %s has %s=%r" % (geo, opt, want, label, seg, end, got[0]),
+                                      {"geometry": geo, "option": opt, "value": want, "psi_shift": shift})
+                    else:
+                        res.traces += 1
+            except Exception as e:  # explicit refusal
+                res.case(key=("limit-refused", geo, opt, type(e).__name__), nontrivial=False)
+                res.extra.setdefault("limit_refused", []).append([geo, opt, "%s: %s" % (type(e).__name__, str(e)[:120])])
     finally:
         tokamak.TokamakEquilibrium.segmentsWithPsivals = orig
 
